@@ -9,3 +9,5 @@ def rec(*ev):
 
 def clear():
     LOG.clear()
+
+FLAGS = {}
